@@ -27,6 +27,9 @@ type Batch struct {
 	Types map[string]map[string]bool
 	// PkgOf: case -> type -> import path
 	PkgOf map[string]map[string]string
+	// Builders: case id -> builder type name (XBuilder) -> import path, for the
+	// zero-argument constructors NewXBuilder
+	Builders map[string]map[string]string
 	// NoDriver: only type-check, do not build the reflective driver
 	NoDriver bool
 	// CompileErrors per case (empty = the case type-checks)
@@ -46,7 +49,7 @@ func NewBatch(dir string) (*Batch, error) {
 	if err := os.WriteFile(filepath.Join(dir, "go.mod"), []byte("module "+modName+"\n\ngo 1.21\n"), 0o644); err != nil {
 		return nil, err
 	}
-	return &Batch{Dir: dir, Types: map[string]map[string]bool{}, PkgOf: map[string]map[string]string{}, CompileErrors: map[string][]string{}}, nil
+	return &Batch{Dir: dir, Types: map[string]map[string]bool{}, PkgOf: map[string]map[string]string{}, CompileErrors: map[string][]string{}, Builders: map[string]map[string]string{}}, nil
 }
 
 func (b *Batch) Close() { _ = os.RemoveAll(b.Dir) }
@@ -56,6 +59,7 @@ func (b *Batch) Add(caseID string, files Files) error {
 	b.cases = append(b.cases, caseID)
 	b.Types[caseID] = map[string]bool{}
 	b.PkgOf[caseID] = map[string]string{}
+	b.Builders[caseID] = map[string]string{}
 	for _, p := range files.Paths() {
 		if !strings.HasSuffix(p, ".go") {
 			continue
@@ -96,6 +100,9 @@ func (b *Batch) Add(caseID string, files Files) error {
 			case *ast.FuncDecl:
 				if decl.Recv == nil && strings.HasPrefix(decl.Name.Name, "New") && decl.Type.Params.NumFields() == 0 && decl.Type.Results.NumFields() == 1 {
 					ctors[strings.TrimPrefix(decl.Name.Name, "New")] = true
+					if name := strings.TrimPrefix(decl.Name.Name, "New"); strings.HasSuffix(name, "Builder") && name != "Builder" {
+						b.Builders[caseID][name] = modName + "/" + filepath.ToSlash(pkgDir)
+					}
 				}
 			}
 		}
@@ -165,6 +172,9 @@ func (b *Batch) buildDriver() error {
 		for _, p := range b.PkgOf[c] {
 			pkgs[p] = true
 		}
+		for _, p := range b.Builders[c] {
+			pkgs[p] = true
+		}
 		var sorted []string
 		for p := range pkgs {
 			sorted = append(sorted, p)
@@ -194,6 +204,14 @@ func (b *Batch) buildDriver() error {
 			}
 			reg.WriteString("}\n")
 		}
+		var bnames []string
+		for n := range b.Builders[c] {
+			bnames = append(bnames, n)
+		}
+		sort.Strings(bnames)
+		for _, n := range bnames {
+			fmt.Fprintf(&reg, "\tbreg[%q] = func() any { return %s.New%s() }\n", c+"/"+n, alias[b.Builders[c][n]], n)
+		}
 	}
 	reg.WriteString("}\n")
 	if err := os.WriteFile(filepath.Join(drv, "registry.go"), reg.Bytes(), 0o644); err != nil {
@@ -221,6 +239,27 @@ type Request struct {
 	Doc string `json:"doc,omitempty"`
 	// Doc2: second document (equals)
 	Doc2 string `json:"doc2,omitempty"`
+	// Build: builder program (op "build"; Key is "<case>/<XBuilder>")
+	Build *BuildProgram `json:"build,omitempty"`
+}
+
+// BuildProgram creates a builder, calls options on it and builds.
+type BuildProgram struct {
+	Builder string      `json:"builder"` // "<case>/<XBuilder>"
+	Calls   []BuildCall `json:"calls"`
+}
+
+type BuildCall struct {
+	Option string     `json:"option"` // matched against method names ignoring case and underscores
+	Args   []BuildArg `json:"args"`
+}
+
+// BuildArg is a JSON value, or nested builder(s).
+type BuildArg struct {
+	JSON       string                  `json:"json,omitempty"`
+	Builder    *BuildProgram           `json:"builder,omitempty"`
+	Builders   []BuildProgram          `json:"builders,omitempty"`
+	BuilderMap map[string]BuildProgram `json:"builder_map,omitempty"`
 }
 
 // Response is the driver's answer.
@@ -246,6 +285,11 @@ type Response struct {
 	Encoded2  string `json:"encoded2,omitempty"`
 	// default
 	HasCtor bool `json:"has_ctor,omitempty"`
+	// build
+	BuildErr     string   `json:"build_err,omitempty"`
+	NoSuchOption string   `json:"no_such_option,omitempty"`
+	ArgErr       string   `json:"arg_err,omitempty"`
+	Options      []string `json:"options,omitempty"`
 }
 
 type BuildError struct {
@@ -317,13 +361,128 @@ type entry struct {
 }
 
 var reg = map[string]entry{}
+var breg = map[string]func() any{}
+
+type buildProgram struct {
+	Builder string      ` + "`json:\"builder\"`" + `
+	Calls   []buildCall ` + "`json:\"calls\"`" + `
+}
+
+type buildCall struct {
+	Option string     ` + "`json:\"option\"`" + `
+	Args   []buildArg ` + "`json:\"args\"`" + `
+}
+
+type buildArg struct {
+	JSON       string                  ` + "`json:\"json\"`" + `
+	Builder    *buildProgram           ` + "`json:\"builder\"`" + `
+	Builders   []buildProgram          ` + "`json:\"builders\"`" + `
+	BuilderMap map[string]buildProgram ` + "`json:\"builder_map\"`" + `
+}
+
+type buildFailure struct{ kind, msg string }
+
+func normName(s string) string {
+	out := make([]rune, 0, len(s))
+	for _, r := range s {
+		if r == '_' {
+			continue
+		}
+		if r >= 'A' && r <= 'Z' {
+			r += 'a' - 'A'
+		}
+		out = append(out, r)
+	}
+	return string(out)
+}
+
+// runProgram instantiates the builder and applies the calls; it returns the
+// builder value.
+func runProgram(p buildProgram) (reflect.Value, *buildFailure) {
+	ctor, ok := breg[p.Builder]
+	if !ok {
+		return reflect.Value{}, &buildFailure{"missing", p.Builder}
+	}
+	bv := reflect.ValueOf(ctor())
+	for _, call := range p.Calls {
+		var method reflect.Value
+		for i := 0; i < bv.NumMethod(); i++ {
+			if normName(bv.Type().Method(i).Name) == normName(call.Option) {
+				method = bv.Method(i)
+			}
+		}
+		if !method.IsValid() {
+			return bv, &buildFailure{"no-such-option", call.Option}
+		}
+		mt := method.Type()
+		if mt.NumIn() != len(call.Args) {
+			return bv, &buildFailure{"arg", fmt.Sprintf("option %s takes %d arguments, %d given", call.Option, mt.NumIn(), len(call.Args))}
+		}
+		args := make([]reflect.Value, 0, len(call.Args))
+		for i, a := range call.Args {
+			pt := mt.In(i)
+			switch {
+			case a.Builder != nil:
+				nested, fail := runProgram(*a.Builder)
+				if fail != nil {
+					return bv, fail
+				}
+				if !nested.Type().AssignableTo(pt) {
+					return bv, &buildFailure{"arg", fmt.Sprintf("%s is not assignable to %s", nested.Type(), pt)}
+				}
+				args = append(args, nested)
+			case a.Builders != nil:
+				if pt.Kind() != reflect.Slice {
+					return bv, &buildFailure{"arg", fmt.Sprintf("%s is not a slice", pt)}
+				}
+				list := reflect.MakeSlice(pt, 0, len(a.Builders))
+				for _, np := range a.Builders {
+					nested, fail := runProgram(np)
+					if fail != nil {
+						return bv, fail
+					}
+					if !nested.Type().AssignableTo(pt.Elem()) {
+						return bv, &buildFailure{"arg", fmt.Sprintf("%s is not assignable to %s", nested.Type(), pt.Elem())}
+					}
+					list = reflect.Append(list, nested)
+				}
+				args = append(args, list)
+			case a.BuilderMap != nil:
+				if pt.Kind() != reflect.Map {
+					return bv, &buildFailure{"arg", fmt.Sprintf("%s is not a map", pt)}
+				}
+				m := reflect.MakeMap(pt)
+				for k, np := range a.BuilderMap {
+					nested, fail := runProgram(np)
+					if fail != nil {
+						return bv, fail
+					}
+					if !nested.Type().AssignableTo(pt.Elem()) {
+						return bv, &buildFailure{"arg", fmt.Sprintf("%s is not assignable to %s", nested.Type(), pt.Elem())}
+					}
+					m.SetMapIndex(reflect.ValueOf(k), nested)
+				}
+				args = append(args, m)
+			default:
+				v := reflect.New(pt)
+				if err := json.Unmarshal([]byte(a.JSON), v.Interface()); err != nil {
+					return bv, &buildFailure{"arg", fmt.Sprintf("%s does not decode into %s: %v", a.JSON, pt, err)}
+				}
+				args = append(args, v.Elem())
+			}
+		}
+		method.Call(args)
+	}
+	return bv, nil
+}
 
 type request struct {
-	ID   int    ` + "`json:\"id\"`" + `
-	Key  string ` + "`json:\"key\"`" + `
-	Op   string ` + "`json:\"op\"`" + `
-	Doc  string ` + "`json:\"doc\"`" + `
-	Doc2 string ` + "`json:\"doc2\"`" + `
+	ID    int           ` + "`json:\"id\"`" + `
+	Key   string        ` + "`json:\"key\"`" + `
+	Op    string        ` + "`json:\"op\"`" + `
+	Doc   string        ` + "`json:\"doc\"`" + `
+	Doc2  string        ` + "`json:\"doc2\"`" + `
+	Build *buildProgram ` + "`json:\"build\"`" + `
 }
 
 type buildError struct {
@@ -349,6 +508,10 @@ type response struct {
 	EqualRev      bool         ` + "`json:\"equal_rev,omitempty\"`" + `
 	Encoded2      string       ` + "`json:\"encoded2,omitempty\"`" + `
 	HasCtor       bool         ` + "`json:\"has_ctor,omitempty\"`" + `
+	BuildErr      string       ` + "`json:\"build_err,omitempty\"`" + `
+	NoSuchOption  string       ` + "`json:\"no_such_option,omitempty\"`" + `
+	ArgErr        string       ` + "`json:\"arg_err,omitempty\"`" + `
+	Options       []string     ` + "`json:\"options,omitempty\"`" + `
 }
 
 func errString(err error) string {
@@ -404,6 +567,39 @@ func handle(req request) (resp response) {
 			resp.Panic = fmt.Sprint(r)
 		}
 	}()
+	if req.Op == "build" {
+		if req.Build == nil {
+			resp.Missing = true
+			return
+		}
+		bv, fail := runProgram(*req.Build)
+		if bv.IsValid() {
+			for i := 0; i < bv.NumMethod(); i++ {
+				resp.Options = append(resp.Options, bv.Type().Method(i).Name)
+			}
+		}
+		if fail != nil {
+			switch fail.kind {
+			case "missing":
+				resp.Missing = true
+			case "no-such-option":
+				resp.NoSuchOption = fail.msg
+			default:
+				resp.ArgErr = fail.msg
+			}
+			return
+		}
+		out := bv.MethodByName("Build").Call(nil)
+		if len(out) == 2 && !out[1].IsNil() {
+			err := out[1].Interface().(error)
+			resp.BuildErr = errString(err)
+			flatten(err, &resp.Errors)
+			return
+		}
+		raw, err := json.Marshal(out[0].Interface())
+		resp.Encoded, resp.EncodeErr = string(raw), errString(err)
+		return
+	}
 	e, ok := reg[req.Key]
 	if !ok {
 		resp.Missing = true
